@@ -893,6 +893,10 @@ func (r rangeValue) Slice(start, end, step int) Value {
 	newStart, ok1 := mulAdd(r.start, r.step, start)
 	newStop, ok2 := mulAdd(r.start, r.step, end)
 	newStep, ok3 := mulAdd(0, r.step, step)
+	// The length computation also needs newStop-newStart to be representable.
+	if span := newStop - newStart; (span < 0) != (newStop < newStart) || span == math.MinInt {
+		ok2 = false
+	}
 	if ok1 && ok2 && ok3 {
 		return rangeValue{
 			start: newStart,
